@@ -1364,6 +1364,25 @@ doneTest:
 				}
 			}
 		})
+		// the record keeps the version text it was given (what PrintVersion prints) and the option declared
+		// under the given names
+		if stored && len(v.Params) == 3 {
+			textOK := false
+			ir.Instrs(v, func(in ssa.Instruction) {
+				st, ok := in.(*ssa.Store)
+				if !ok || st.Val != ssa.Value(v.Params[2]) {
+					return
+				}
+				if fa, isFA := st.Addr.(*ssa.FieldAddr); isFA {
+					if _, isAl := fa.X.(*ssa.Alloc); isAl {
+						textOK = true
+					}
+				}
+			})
+			if !textOK {
+				stored = false
+			}
+		}
 		declares := false
 		fam := c.paramIfaceMethods()
 		for _, call := range ir.Calls(v) {
